@@ -164,7 +164,7 @@ def run_worker(binary, scenario, seed, tier, start, count, stride, digests, cove
             done = (out["fatal"]["run"] - cur) // stride + 1
             cur += done * stride
             remaining -= done
-            if fatals >= 5:
+            if fatals >= 2:
                 break
             continue
         raise HarnessError("worker %s exited with %s without a summary:\n%s\n%s" % (
@@ -260,7 +260,8 @@ def run_job_config(job, cfg, binary, seed, tier, want_digests):
 def fatal_property(scenario, sig):
     # a memory fault inside the allocator-guard scenario is a C15 observation; any other
     # process-level failure (SIGFPE, abort, hang, SIGSEGV elsewhere) is C14 "faults the process"
-    if scenario.startswith("c15") and sig in (11, 7):
+    if scenario.startswith("c15") and sig != 14:
+        # SIGSEGV/SIGBUS on a guard page, SIGFPE from the hardware divide, SIGABRT from a corrupted heap
         return "C15"
     if scenario.startswith("c18") and sig == 14:
         return "C18"  # a sampler that never returns although the stream has healed
@@ -285,8 +286,10 @@ def replay_text(binary, text, tag="cand"):
 
 def replay_path(binary, path):
     """Returns (list of violation dicts, R record or None)."""
+    env = dict(os.environ)
+    env.setdefault("NBSIM_WATCHDOG_S", "6")
     try:
-        p = subprocess.run([binary, "replay", path], stdout=subprocess.PIPE, stderr=subprocess.PIPE, timeout=180)
+        p = subprocess.run([binary, "replay", path], stdout=subprocess.PIPE, stderr=subprocess.PIPE, timeout=60, env=env)
     except subprocess.TimeoutExpired:
         return [dict(property="C14", oracle="signal-14", api="?", step=0, detail="replay timed out")], None
     out = p.stdout.decode("utf-8", "replace")
@@ -457,7 +460,13 @@ def report_violations(prop, viols, binaries, primary_cfg):
     for v in viols:
         groups.setdefault(sig_of(v), []).append(v)
     unlisted = 0
-    for n, (sg, vs) in enumerate(sorted(groups.items())):
+    ordered = sorted(groups.items(), key=lambda kv: (-len(kv[1]), kv[0]))
+    if len(ordered) > 8:
+        log("[note] %d distinct violation signatures; reporting the 8 most frequent, the others are: %s" % (
+            len(ordered), ", ".join("%s/%s/%s" % sg for sg, _ in ordered[8:40])))
+        unlisted += len([1 for sg, vs in ordered[8:] if match_known(vs[0]) is None])
+        ordered = ordered[:8]
+    for n, (sg, vs) in enumerate(ordered):
         v = min(vs, key=lambda x: len(x.get("plan") or ""))
         k = match_known(v)
         if k is not None:
@@ -472,7 +481,7 @@ def report_violations(prop, viols, binaries, primary_cfg):
             continue
         binary = binaries[v.get("cfg", primary_cfg)]
         minimised, final_detail = text, v.get("detail", "")
-        if n < 6 and v.get("shrinkable", True):
+        if n < 4 and v.get("shrinkable", True):
             if v.get("diff_cfgs"):
                 ba, bb = binaries[v["diff_cfgs"][0]], binaries[v["diff_cfgs"][1]]
 
@@ -531,8 +540,8 @@ def write_evidence(prop, tier, seed, level, coverage, assumptions, wall, nviol):
     return path
 
 
-def coverage_from_jobs(results, extra=None):
-    evaluations = sum(r.runs for r in results)
+def coverage_from_jobs(results, extra=None, count_steps=False):
+    evaluations = sum((r.steps if count_steps else r.runs) for r in results)
     distinct = sum(len(r.cover) for r in results)
     steps = sum(r.steps for r in results)
     wall = sum(r.wall for r in results) or 1e-9
@@ -597,6 +606,81 @@ PROPS = {
             "only x86_64 / 64-bit digits are compiled",
         ],
     ),
+    "C04": dict(
+        level="exploration",
+        evaluations="steps",
+        jobs=[
+            Job("c04", "std-debug", 250_000, 6_000_000,
+                "plans = register-file histories (6 BigUint + 6 BigInt registers, snapshots) over the public constructing / mutating / "
+                "by-value operator vocabulary with round-trip detours, redundant constructor inputs, injected documented failures (swarm), "
+                "occasionally under the garbage-filling always-moving allocator; non-trivial = some step produced a value equal to one "
+                "reached by a different history; distinct = distinct (operation form, previous operation on the same register, length "
+                "class, capacity/length class or sign)"),
+            Job("c04", "std-release", 100_000, 2_000_000, "same plans in the release harness (no debug assertions in eq/cmp/hash)"),
+        ],
+        assumptions=[
+            "denote(): iter_u64_digits() + sign() as observation channel, trailing zero digits kept visible",
+            "RefNat/RefInt order as numerical order",
+            "the &mut receiver of a panicked documented-failure operation is re-initialised (Rust promises nothing about it)",
+            "the oracle never compares against an arithmetic result: wrong arithmetic with intact canonicalisation raises no C04 alarm",
+        ],
+    ),
+    "C14": dict(
+        level="fault_enumeration",
+        jobs=[
+            Job("c14f", "std-debug", 60_000, 1_500_000,
+                "fault sites = complete list of (operation form, documented-failure class) pairs plus sites that must not fail; run i "
+                "executes site i mod N at the end of a fresh random history, then continues; distinct = distinct sites executed"),
+            Job("c14f", "std-release", 60_000, 1_500_000, "same sites in the release harness (violated div precondition = SIGFPE, silent wrap)"),
+            Job("c14h", "std-debug", 100_000, 3_000_000,
+                "complement: histories of * / % pow modpow roots gcd to_str ... with operand lengths on both sides of every internal "
+                "threshold (5-digit block, 32/33, 64, 256/257 digits, 2x imbalance) and all-ones / sparse / power-of-two digit patterns; "
+                "every step not classified as a documented failure must return; distinct = distinct (operation form, scalar type)"),
+            Job("c14h", "std-release", 60_000, 1_500_000, "same plans, release harness"),
+        ],
+        assumptions=[
+            "expect(): classification of documented failures from reference denotations before the step runs",
+            "the fault-site list is enumerated completely each run (exhaustive over the list; operands and histories are sampled)",
+            "shifts / powers whose result would exceed ~45 kbit are skipped (out of scope: must exhaust memory)",
+            "supervisor: catch_unwind for panics, signal handler for SIGSEGV/SIGFPE/SIGILL/SIGABRT, alarm() watchdog for hangs",
+        ],
+        exhaustive_note="the site list (operation form x failure class) is enumerated completely; operands/histories are sampled",
+    ),
+    "C15": dict(
+        level="exploration",
+        jobs=[
+            Job("c15", "std-release", 120_000, 3_000_000,
+                "every plan runs twice: under the plain allocator and under SimAlloc (each block alone on its pages, ending at or starting "
+                "behind a PROT_NONE page, garbage-filled, realloc always moves, freed blocks inaccessible, borrowed operands optionally "
+                "mprotect'ed read-only); oracles: no signal, produced text valid ASCII digits of the radix, registers a step only borrows "
+                "unchanged, identical transcripts under both allocators; distinct = distinct (operation form, placement policy, protect)"),
+            Job("c15", "std-debug", 60_000, 1_500_000, "same plans, debug harness"),
+            Job("c15rand", "std-release", 40_000, 1_000_000,
+                "gen_biguint(n) for every n in 0..=200 and multiples of 32/64 +-1 into guarded memory from a scripted RNG"),
+        ],
+        assumptions=[
+            "a page fault is the observation: an out-of-bounds access that stays inside the same page as the block's own bytes is invisible "
+            "(blocks end exactly at the guard page for sizes that are multiples of the alignment, i.e. every Vec<u64>/Vec<u8>)",
+            "Linux mmap/mprotect semantics",
+            "inline assembly operand declarations are trusted (in(reg) size is modified inside the asm block: reading note in DESIGN.md)",
+        ],
+    ),
+    "C16": dict(
+        level="exploration",
+        custom="check_c16",
+        jobs=[
+            Job("c16", ["std-debug", "std-release", "nostd-debug", "nostd-release"], 80_000, 2_000_000,
+                "plans = register-machine histories weighted towards feature-conditional code (to_str_radix / to_radix / parsing over all "
+                "radices and sizes on both sides of the 64-digit threshold, sqrt/cbrt/nth_root, float conversions, formatting with flags) plus a "
+                "cross-section of every other family; the per-run transcript digest (every result digit, text, float bit pattern, None/panic "
+                "flag) must be identical in all four harness builds; distinct = distinct (operation form, scalar type, radix)"),
+        ],
+        assumptions=[
+            "cargo check of the library alone (guard off) decides 'compiles'; only target x86_64-unknown-linux-gnu is installed",
+            "transcripts exclude quickcheck/arbitrary arrivals (those features need std)",
+            "debug harness = opt-level 1 with debug assertions and overflow checks; release = opt-level 3 without",
+        ],
+    ),
     "C17": dict(
         level="exploration",
         jobs=[
@@ -635,13 +719,146 @@ PROPS = {
 }
 
 
+# ---------------------------------------------------------------------------------------------
+# C16: build matrix + transcripts
+
+STD_FEATURES = ["arbitrary", "quickcheck", "rand", "serde"]
+NO_STD_FEATURES = ["serde", "rand"]
+
+
+def feature_matrix(tier):
+    import itertools
+    cfgs = []
+    for n in range(len(STD_FEATURES) + 1):
+        for sub in itertools.combinations(STD_FEATURES, n):
+            cfgs.append((["std"] + list(sub), "dev"))
+    for n in range(len(NO_STD_FEATURES) + 1):
+        for sub in itertools.combinations(NO_STD_FEATURES, n):
+            cfgs.append((list(sub), "dev"))
+    rel = [(["std"], "release"), ([], "release"), (["std"] + STD_FEATURES, "release"), (list(NO_STD_FEATURES), "release")]
+    if tier == "thorough":
+        rel = [(f, "release") for f, _ in cfgs]
+    return cfgs + rel
+
+
+def cargo_check(features, profile, slot):
+    tdir = os.path.join(TARGET, "matrix-%d" % slot)
+    cmd = ["cargo", "check", "--offline", "--quiet", "--manifest-path", os.path.join(REPO, "Cargo.toml"),
+           "--target-dir", tdir, "--no-default-features", "--lib"]
+    if features:
+        cmd += ["--features", " ".join(features)]
+    if profile == "release":
+        cmd += ["--release"]
+    env = dict(os.environ)
+    env["CARGO_NET_OFFLINE"] = "true"
+    env.pop("RUSTFLAGS", None)
+    p = subprocess.run(cmd, env=env, stdout=subprocess.PIPE, stderr=subprocess.STDOUT, text=True)
+    return p.returncode, p.stdout
+
+
+def run_matrix(tier):
+    cfgs = feature_matrix(tier)
+    slots = 6
+    results = [None] * len(cfgs)
+
+    def work(slot):
+        for i in range(slot, len(cfgs), slots):
+            results[i] = cargo_check(cfgs[i][0], cfgs[i][1], slot)
+
+    with cf.ThreadPoolExecutor(max_workers=slots) as ex:
+        list(ex.map(work, range(slots)))
+    return cfgs, results
+
+
+def build_replay_text(features, profile, output):
+    errs = [l for l in output.splitlines() if l.startswith("error")][:6]
+    return "nbsim-build 1\nfeatures %s\nprofile %s\n%s\n" % (
+        " ".join(features) if features else "(none)", profile, "\n".join("note " + e for e in errs))
+
+
+def check_c16(prop, tier, seed):
+    spec = PROPS[prop]
+    t0 = time.time()
+    os.makedirs(REPLAYS, exist_ok=True)
+    viols_lines = 0
+    cfgs, results = run_matrix(tier)
+    failed = []
+    for (features, profile), (rc, out) in zip(cfgs, results):
+        if rc != 0:
+            failed.append((features, profile, out))
+    log("[matrix] %d configurations checked in %.1fs, %d fail to compile" % (len(cfgs), time.time() - t0, len(failed)))
+    for features, profile, out in failed[:6]:
+        text = build_replay_text(features, profile, out)
+        h = hashlib.sha1(text.encode()).hexdigest()[:12]
+        path = os.path.join(REPLAYS, "C16-build-%s.plan" % h)
+        with open(path, "w") as f:
+            f.write(text)
+        first = next((l for l in out.splitlines() if l.startswith("error")), "compile error")
+        v = dict(property="C16", oracle="does-not-compile", api="features=[%s] profile=%s" % (" ".join(features), profile), detail=first)
+        k = match_known(v)
+        if k is not None:
+            log("KNOWN-FINDING: property=C16 %s" % k.get("what", ""))
+        else:
+            viols_lines += 1
+            log("VIOLATION property=C16 replay=%s oracle=does-not-compile features=[%s] profile=%s detail=%s" % (
+                path, " ".join(features), profile, first[:300]))
+    # transcripts
+    results_jobs, viols = [], []
+    binaries = {}
+    try:
+        binaries = build_many([c for j in spec["jobs"] for c in j.configs])
+    except BuildError as e:
+        if failed:
+            log("[note] harness configuration %s not built because the library does not compile in it" % e.cfg)
+        else:
+            raise
+    if binaries and len(binaries) == len(set(c for j in spec["jobs"] for c in j.configs)):
+        for job in spec["jobs"]:
+            per_cfg = []
+            for cfg in job.configs:
+                jr = run_job_config(job, cfg, binaries[cfg], seed, tier, True)
+                log("[run] %s/%s: %d runs, %d steps, %.1fs, %d violating" % (job.scenario, cfg, jr.runs, jr.steps, jr.wall, len(jr.violations)))
+                per_cfg.append(jr)
+                results_jobs.append(jr)
+                viols.extend(jr.violations)
+            base = per_cfg[0]
+            for other in per_cfg[1:]:
+                bad = sorted(i for i in base.digests if i in other.digests and base.digests[i] != other.digests[i])
+                for i in bad[:2]:
+                    plan = gen_plan(binaries[base.cfg], job.scenario, seed, tier, i)
+                    viols.append(dict(property="C16", oracle="config-divergence",
+                                      api="%s[%s vs %s]" % (job.scenario, base.cfg, other.cfg), step=0,
+                                      detail="run %d: digest %s vs %s" % (i, base.digests[i][1], other.digests[i][1]),
+                                      index=i, plan=plan, cfg=base.cfg, diff_cfgs=(base.cfg, other.cfg)))
+                if bad:
+                    log("[diff] %s: %d of %d runs diverge between %s and %s" % (job.scenario, len(bad), len(base.digests), base.cfg, other.cfg))
+    unlisted = report_violations(prop, viols, binaries, "std-debug") if viols else 0
+    samples = [dict(kind="build", features=f, profile=p) for f, p in cfgs[:3]]
+    if results_jobs:
+        cov = coverage_from_jobs(results_jobs, dict(components_real=COMPONENTS_REAL, components_simulated=COMPONENTS_SIM))
+        cov["samples"] = samples + cov["samples"][:3]
+    else:
+        cov = dict(evaluations=len(cfgs), distinct_nontrivial=len(cfgs), rule="", samples=samples)
+    cov["rule"] = ("build matrix: every supported feature subset x profile compiled with cargo check; transcripts: " + cov.get("rule", ""))
+    cov["build_configurations_checked"] = len(cfgs)
+    cov["build_configurations_failed"] = len(failed)
+    cov["build_matrix"] = ["%s/%s" % (" ".join(f) or "(none)", p) for f, p in cfgs]
+    cov["transcript_configurations"] = sorted(binaries)
+    cov["evaluations"] = cov.get("evaluations", 0) + len(cfgs)
+    cov["distinct_nontrivial"] = cov.get("distinct_nontrivial", 0) + len(cfgs)
+    path = write_evidence(prop, tier, seed, spec["level"], cov, spec["assumptions"], time.time() - t0, len(viols) + len(failed))
+    log("[done] %s tier=%s seed=%d evaluations=%d distinct_nontrivial=%d wall=%.1fs evidence=%s" % (
+        prop, tier, seed, cov["evaluations"], cov["distinct_nontrivial"], time.time() - t0, path))
+    return 1 if (unlisted or viols_lines) else 0
+
+
 def check_property(prop, tier, seed):
     if prop not in PROPS:
         raise HarnessError("property %s is not claimed (see MANIFEST.json not_applicable)" % prop)
     spec = PROPS[prop]
     t0 = time.time()
     if "custom" in spec:
-        return spec["custom"](prop, tier, seed)
+        return globals()[spec["custom"]](prop, tier, seed)
     cfgs = [c for j in spec["jobs"] for c in j.configs]
     binaries = build_many(cfgs)
     results, viols = [], []
@@ -669,7 +886,10 @@ def check_property(prop, tier, seed):
                 if bad:
                     log("[diff] %s: %d runs diverge between %s and %s" % (job.scenario, len(bad), base.cfg, other.cfg))
     unlisted = report_violations(prop, viols, binaries, spec["jobs"][0].configs[0])
-    cov = coverage_from_jobs(results, dict(components_real=COMPONENTS_REAL, components_simulated=COMPONENTS_SIM))
+    cov = coverage_from_jobs(results, dict(components_real=COMPONENTS_REAL, components_simulated=COMPONENTS_SIM),
+                             count_steps=spec.get("evaluations") == "steps")
+    cov["evaluations_unit"] = "oracle evaluations (executed steps)" if spec.get("evaluations") == "steps" else "simulated runs"
+    cov["simulated_runs"] = sum(r.runs for r in results)
     if spec.get("exhaustive_note"):
         cov["exhaustive_note"] = spec["exhaustive_note"]
     path = write_evidence(prop, tier, seed, spec["level"], cov, spec["assumptions"], time.time() - t0, len(viols))
@@ -682,6 +902,17 @@ def check_property(prop, tier, seed):
 
 def cmd_replay(path):
     text = open(path).read()
+    if text.startswith("nbsim-build"):
+        feats = re.search(r"^features (.*)$", text, re.M).group(1)
+        prof = re.search(r"^profile (.*)$", text, re.M).group(1)
+        features = [] if feats == "(none)" else feats.split()
+        rc, out = cargo_check(features, prof, 0)
+        if rc != 0:
+            first = next((l for l in out.splitlines() if l.startswith("error")), "compile error")
+            log("VIOLATION property=C16 replay=%s oracle=does-not-compile features=[%s] profile=%s detail=%s" % (path, feats, prof, first[:300]))
+            return 1
+        log("[replay] features=[%s] profile=%s compiles" % (feats, prof))
+        return 0
     cfg = "std-debug"
     m = re.search(r"^expect .*cfg=(\S+)", text, re.M)
     if m and m.group(1) in CONFIGS:
